@@ -55,6 +55,7 @@ def dispatch (line : String) : String :=
   | "sched" :: rest => handleSched rest
   | "hostcall" :: rest => handleHostCall rest
   | "heapcopy" :: rest => handleHeapCopy rest
+  | "heapalias" :: rest => handleHeapAlias rest
   | "pm" :: rest => handlePatMatrix rest
   | "pc" :: rest => handlePatCompile rest
   | "sem" :: rest => handleSem rest
